@@ -162,6 +162,7 @@ type SpecFn struct {
 	PNames []string
 	Ret    *Sort
 	Decl   string // SMT text
+	Def    string // definitional axiom of an opaque function (emitted only where revealed)
 	SMT    string // SMT function name
 	Lemmas []LemmaVC
 }
@@ -185,6 +186,8 @@ type SpecReg struct {
 	gorder []string
 	axioms []string
 	folds  map[string][]*SpecFn // by array elem sort name
+	lemmaAxioms []string
+	lemmaVCs    []LemmaVC
 }
 
 func NewSpecReg(p *Program, ss *Sorts) *SpecReg {
@@ -208,8 +211,13 @@ func (r *SpecReg) Build() {
 		switch sd.Kind {
 		case "sumfold", "nnfold":
 			r.buildFold(sd)
-		case "define", "declare", "function":
+		case "define", "declare", "function", "opaque":
 			r.buildDefine(sd)
+		}
+	}
+	for _, sd := range r.prog.Specs {
+		if sd.Kind == "lemma" {
+			r.buildLemma(sd)
 		}
 	}
 	for _, sd := range r.prog.Specs {
@@ -391,6 +399,75 @@ func (r *SpecReg) buildFold(sd *SpecDecl) {
 	r.folds[sl.Elem.Name] = append(r.folds[sl.Elem.Name], fn)
 }
 
+// buildLemma: a universally quantified fact that is (a) proved once as its own obligation(s) — directly, or by
+// induction on an integer parameter — and (b) made available to every VC as an axiom with the given triggers.
+func (r *SpecReg) buildLemma(sd *SpecDecl) {
+	env := &SpecEnv{reg: r, pk: sd.Pkg, bound: map[string]Term{}}
+	var decl, consts []string
+	for _, q := range sd.Params {
+		so, _, err := r.prog.ResolveTypeX(r.ss, sd.Pkg, q.Type)
+		if err != nil {
+			r.prog.errf(sd.Line, "%v", err)
+			return
+		}
+		env.bound[q.Name] = Term{"l_" + q.Name, so}
+		decl = append(decl, fmt.Sprintf("(l_%s %s)", q.Name, so.Name))
+		consts = append(consts, fmt.Sprintf("(declare-const l_%s %s)", q.Name, so.Name))
+	}
+	body := sd.Body
+	var trig string
+	if body.Op == "trigbody" {
+		return
+	}
+	// optional leading trigger groups are written as:  {t1} {t2} body  -- reuse the quantifier syntax by wrapping
+	t, err := env.EvalBool(body)
+	if err != nil {
+		r.prog.errf(sd.Line, "lemma %s: %v", sd.Name, err)
+		return
+	}
+	for _, tx := range sd.Trig {
+		var ts []string
+		for _, a := range tx.Args {
+			tt, err := env.Eval(a)
+			if err != nil {
+				r.prog.errf(sd.Line, "lemma %s trigger: %v", sd.Name, err)
+				return
+			}
+			ts = append(ts, tt.S)
+		}
+		trig += " :pattern (" + strings.Join(ts, " ") + ")"
+	}
+	ax := fmt.Sprintf("(assert (forall (%s) (! %s%s))) ; lemma %s", strings.Join(decl, " "), t.S, trig, sd.Name)
+	if trig == "" {
+		ax = fmt.Sprintf("(assert (forall (%s) %s)) ; lemma %s", strings.Join(decl, " "), t.S, sd.Name)
+	}
+	r.lemmaAxioms = append(r.lemmaAxioms, ax)
+	// proof obligations (earlier lemmas may be used; this one and later ones may not)
+	prior := strings.Join(r.lemmaAxioms[:len(r.lemmaAxioms)-1], "\n")
+	if prior != "" {
+		prior += "\n"
+	}
+	pre := prior + strings.Join(consts, "\n") + "\n"
+	if sd.Induct == "" {
+		r.lemmaVCs = append(r.lemmaVCs, LemmaVC{Name: "lemma:" + sd.Name, Body: pre + "(assert (not " + t.S + "))\n"})
+		return
+	}
+	iv := "l_" + sd.Induct
+	// induction hypothesis: the body at k-1 (k is replaced textually by a fresh constant equal to k-1)
+	env2 := &SpecEnv{reg: r, pk: sd.Pkg, bound: map[string]Term{}}
+	for k, v := range env.bound {
+		env2.bound[k] = v
+	}
+	env2.bound[sd.Induct] = Term{"(- " + iv + " 1)", SInt}
+	ih, err := env2.EvalBool(body)
+	if err != nil {
+		r.prog.errf(sd.Line, "lemma %s: %v", sd.Name, err)
+		return
+	}
+	r.lemmaVCs = append(r.lemmaVCs, LemmaVC{Name: "lemma:" + sd.Name + ":base", Body: pre + "(assert (<= " + iv + " 0))\n(assert (not " + t.S + "))\n"})
+	r.lemmaVCs = append(r.lemmaVCs, LemmaVC{Name: "lemma:" + sd.Name + ":step", Body: pre + "(assert (> " + iv + " 0))\n(assert " + ih.S + ")\n(assert (not " + t.S + "))\n"})
+}
+
 func (r *SpecReg) buildDefine(sd *SpecDecl) {
 	var sorts []*Sort
 	env := &SpecEnv{reg: r, pk: sd.Pkg, bound: map[string]Term{}}
@@ -418,7 +495,7 @@ func (r *SpecReg) buildDefine(sd *SpecDecl) {
 		ret = so
 	}
 	fn.Ret = ret
-	if sd.Kind == "function" && sd.Body != nil {
+	if (sd.Kind == "function" || sd.Kind == "opaque") && sd.Body != nil {
 		var ps, ns []string
 		for i, s := range sorts {
 			ps = append(ps, s.Name)
@@ -434,7 +511,14 @@ func (r *SpecReg) buildDefine(sd *SpecDecl) {
 			return
 		}
 		app := "(" + fn.SMT + " " + strings.Join(ns, " ") + ")"
-		fn.Decl = fmt.Sprintf("(declare-fun %s (%s) %s)\n(assert (forall (%s) (! (= %s %s) :pattern (%s))))\n", fn.SMT, strings.Join(ps, " "), ret.Name, strings.Join(pd, " "), app, body.S, app)
+		fn.Decl = fmt.Sprintf("(declare-fun %s (%s) %s)\n", fn.SMT, strings.Join(ps, " "), ret.Name)
+		def := fmt.Sprintf("(assert (forall (%s) (! (= %s %s) :pattern (%s))))\n", strings.Join(pd, " "), app, body.S, app)
+		if sd.Kind == "opaque" {
+			fn.Def = def // emitted only where revealed
+			fn.Kind = "opaque"
+		} else {
+			fn.Decl += def
+		}
 	} else if sd.Kind == "declare" || sd.Body == nil {
 		var ps []string
 		for _, s := range sorts {
@@ -463,6 +547,7 @@ func (r *SpecReg) buildDefine(sd *SpecDecl) {
 
 type SpecEnv struct {
 	reg    *SpecReg
+	typeArgs map[string]types.Type // type parameters of a generic callee bound at the call site
 	pk     *packages.Package
 	bound  map[string]Term
 	lookup func(name string, old bool) (Term, bool)
@@ -470,6 +555,16 @@ type SpecEnv struct {
 }
 
 func (e *SpecEnv) ss() *Sorts { return e.reg.ss }
+
+// resolveType resolves a spec type; names of type parameters bound at a call site denote the type arguments.
+func (e *SpecEnv) resolveType(t *TypeX) (*Sort, types.Type, error) {
+	if t.Kind == "name" && t.Pkg == "" && e.typeArgs != nil {
+		if gt, ok := e.typeArgs[t.Name]; ok {
+			return e.ss().Of(gt), gt, nil
+		}
+	}
+	return e.reg.prog.ResolveTypeX(e.ss(), e.pk, t)
+}
 
 func (e *SpecEnv) withBound(vs map[string]Term) *SpecEnv {
 	n := *e
@@ -609,7 +704,7 @@ func (e *SpecEnv) Eval(x *SX) (Term, error) {
 		vs := map[string]Term{}
 		var decl []string
 		for _, q := range x.Vars {
-			so, _, err := e.reg.prog.ResolveTypeX(e.ss(), e.pk, q.Type)
+			so, _, err := e.resolveType(q.Type)
 			if err != nil {
 				return Term{}, err
 			}
@@ -653,7 +748,7 @@ func (e *SpecEnv) Eval(x *SX) (Term, error) {
 			return a, err
 		}
 		if a.Sort.Kind == KOpaque {
-			tso, gt, err := e.reg.prog.ResolveTypeX(e.ss(), e.pk, x.Type)
+			tso, gt, err := e.resolveType(x.Type)
 			if err != nil {
 				return a, err
 			}
@@ -670,7 +765,7 @@ func (e *SpecEnv) Eval(x *SX) (Term, error) {
 		if a.Sort.Kind != KSum {
 			return a, fmt.Errorf("type test on non-interface sort %s", a.Sort.Name)
 		}
-		_, gt, err := e.reg.prog.ResolveTypeX(e.ss(), e.pk, x.Type)
+		_, gt, err := e.resolveType(x.Type)
 		if err != nil {
 			return a, err
 		}
@@ -1038,6 +1133,13 @@ func (e *SpecEnv) evalCall(x *SX) (Term, error) {
 	case "str":
 		// int -> decimal string
 		return Term{sx("int2str", args[0].S), SStr}, nil
+	case "sameArray":
+		// sameArray(s, t): both slices view the same backing array from index 0 (s = t[:k] or the reverse)
+		a, b := autoDeref(args[0]), autoDeref(args[1])
+		if a.Sort.Kind != KSlice || a.Sort != b.Sort {
+			return a, fmt.Errorf("sameArray on sorts %s, %s", a.Sort.Name, b.Sort.Name)
+		}
+		return Term{sx("=", slArr(a).S, slArr(b).S), SBool}, nil
 	case "domEq":
 		// domEq(m1, m2): same key set
 		return Term{sx("=", mpDom(args[0]), mpDom(args[1])), SBool}, nil
